@@ -174,6 +174,72 @@ class Sim(object):
             raise HarnessError('companion: ' + val)
         return val
 
+    # ------------------------------------------------------------ real processes
+    def run_real(self, spec, timeout=120):
+        """Stub-fidelity cross-check: the `cli` ops of a spec executed as REAL processes
+        (`python <repo>/treetools ...`, one exec per command, session after session) in a
+        private real directory, with none of the seams installed.  Returns the exit status per
+        command and the files left behind, in the shape of run()'s observations."""
+        self.counter += 1
+        root = os.path.join(self.base, 'p%d-%dreal' % (os.getpid(), self.counter))
+        w = os.path.join(root, 'w')
+        tmp = os.path.join(root, 'tmp')
+        os.makedirs(w)
+        os.makedirs(tmp)
+
+        def real(v):
+            if isinstance(v, str) and (v == '/sim' or v.startswith('/sim/')):
+                return root + v[4:]
+            if isinstance(v, str) and ':/sim/' in v:
+                k, _, rest = v.partition(':')
+                return k + ':' + root + rest[4:]
+            return v
+        try:
+            for d in spec.get('dirs', ()):
+                os.makedirs(real(d), exist_ok=True)
+            inputs = spec.get('files', {})
+            for path, data in sorted(inputs.items()):
+                rp = real(path)
+                os.makedirs(os.path.dirname(rp), exist_ok=True)
+                with open(rp, 'wb') as f:
+                    f.write(data)
+            env = dict(os.environ)
+            env['PYTHONHASHSEED'] = str(self.hashseeds[0])
+            env['PYTHONDONTWRITEBYTECODE'] = '1'
+            env['TMPDIR'] = tmp
+            recs = {}
+            for sess in spec['sessions']:
+                out = recs.setdefault(sess.get('id', 's0'), [])
+                for op in sess['ops']:
+                    if op[0] != 'cli':
+                        raise HarnessError('run_real: only cli ops, got %r' % (op[0],))
+                    argv = [sys.executable, os.path.join(self.repo_path, 'treetools')] \
+                        + [real(a) for a in op[1]]
+                    try:
+                        r = subprocess.run(argv, cwd=w, env=env, stdin=subprocess.DEVNULL,
+                                           capture_output=True, timeout=timeout)
+                        out.append({'op': 'cli', 'ok': {'exit': r.returncode},
+                                    'stderr_tail': r.stderr[-300:].decode('utf-8', 'replace')
+                                    .replace(root, '/sim')})
+                    except subprocess.TimeoutExpired:
+                        out.append({'op': 'cli', 'exc': 'Timeout'})
+            files = {}
+            for dirpath, dirnames, filenames in os.walk(root):
+                dirnames.sort()
+                for fn in sorted(filenames):
+                    rp = os.path.join(dirpath, fn)
+                    rel = '/sim' + rp[len(root):]
+                    if rel.startswith('/sim/tmp/'):
+                        continue
+                    with open(rp, 'rb') as f:
+                        data = f.read()
+                    if rel in inputs and inputs[rel] == data:
+                        continue
+                    files[rel] = data
+            return {'sessions': recs, 'files': files}
+        finally:
+            shutil.rmtree(root, ignore_errors=True)
+
     def close(self):
         if self.companion is not None:
             try:
